@@ -113,6 +113,59 @@ fn build_image(layout: &[Vec<u8>]) -> Result<Image, String> {
     Ok(Image { store, files })
 }
 
+/// The same file in the previous on-disk format (version 1: the entry checksum covers the payload only), which
+/// `WalReader` promises to keep reading (WAL_MIN_VERSION = 1): header byte 4 := 1, every entry's checksum := crc32(payload).
+fn to_version_1(f: &FileImg) -> Vec<u8> {
+    let mut b = f.bytes.clone();
+    b[4] = 1;
+    for e in &f.entries {
+        let crc = crc32fast::hash(&e.data);
+        b[e.start + 12..e.start + 16].copy_from_slice(&crc.to_le_bytes());
+    }
+    b
+}
+
+/// Every subset of the image's files rewritten in format version 1: recovery (both entry points) must return exactly
+/// what it returns for the version-2 image.
+fn eval_old_format(layout: &[Vec<u8>]) -> Result<(Option<Found>, u64), String> {
+    let img = build_image(layout)?;
+    let rot = WalRotator::new(img.store.clone(), BIG).map_err(|e| format!("rotator: {e}"))?;
+    let canon = |es: &[WalEntry]| -> Vec<(u64, Vec<u8>)> { es.iter().map(|e| (e.timestamp, e.data.clone())).collect() };
+    let want = canon(&rot.recover_all_entries().map_err(|e| format!("recover (v2 image): {e}"))?);
+    let want_after: Vec<String> = rot.recover_entries_after(0).map_err(|e| format!("recover_entries_after (v2 image): {e}"))?.iter().map(imgx::canon).collect();
+    let n = img.files.len();
+    let mut cases = 0u64;
+    for mask in 1u32..(1 << n) {
+        for (i, f) in img.files.iter().enumerate() {
+            img.store.set_file_data(&f.name, if mask & (1 << i) != 0 { to_version_1(f) } else { f.bytes.clone() });
+        }
+        cases += 1;
+        let got = std::panic::catch_unwind(std::panic::AssertUnwindSafe(|| (rot.recover_all_entries(), rot.recover_entries_after(0))));
+        let which: Vec<usize> = (0..n).filter(|i| mask & (1 << i) != 0).collect();
+        let mk = |what: &str, detail: String| Found {
+            sig: format!("version-1 file: {what}"),
+            detail: format!("layout {:?} with file(s) {:?} rewritten in format version 1 (header byte 4 = 1, entry checksum = crc32 of the payload): {detail}", layout, which),
+            replay: json!({"part": "old-format", "layout": layout}),
+        };
+        match got {
+            Err(p) => return Ok((Some(mk("panic", vh::panic_text(&p))), cases)),
+            Ok((all, after)) => {
+                match all {
+                    Err(e) => return Ok((Some(mk("recover-error", format!("recover_all_entries returned Err({e})"))), cases)),
+                    Ok(es) if canon(&es) != want => return Ok((Some(mk("entries-not-returned", format!("recover_all_entries returns {} entries, the same image in version 2 returns {}", es.len(), want.len()))), cases)),
+                    _ => {}
+                }
+                match after {
+                    Err(e) => return Ok((Some(mk("entries-after-error", format!("recover_entries_after(0) returned Err({e})"))), cases)),
+                    Ok(ds) if ds.iter().map(imgx::canon).collect::<Vec<_>>() != want_after => return Ok((Some(mk("entries-after-differ", format!("recover_entries_after(0) returns {} updates, the same image in version 2 returns {}", ds.len(), want_after.len()))), cases)),
+                    _ => {}
+                }
+            }
+        }
+    }
+    Ok((None, cases))
+}
+
 fn regions(f: &FileImg) -> imgx::Regions {
     let mut r: imgx::Regions = vec![
         ("file.magic", 0, 4),
@@ -576,6 +629,13 @@ fn replay(path: &std::path::Path) -> ! {
             let regs = regions(&img.files[m]);
             eval_mutation(&img, &rot, &layout, m, mu, &th, &regs, &mut st)
         }
+        Some("old-format") => match eval_old_format(&parse_layout_u8(&r["layout"])) {
+            Ok((f, _)) => f,
+            Err(e) => {
+                eprintln!("harness: {e}");
+                std::process::exit(2)
+            }
+        },
         Some("truncate") => {
             let layout = parse_layout_u64(&r["layout"]);
             let t = r["t"].as_u64().unwrap_or(0);
@@ -688,6 +748,24 @@ fn main() {
         }
     }
 
+    // ---- part 3: files written in the previous format -----------------------------------
+    let mut old_layouts = layouts(1, 3);
+    old_layouts.extend(layouts(2, 2));
+    old_layouts.extend(layouts(3, 1));
+    let ores = par::par_map(&old_layouts, |_, l| eval_old_format(l));
+    let mut old_cases = 0u64;
+    for (r, l) in ores.into_iter().zip(&old_layouts) {
+        match r {
+            Ok((f, n)) => {
+                old_cases += n;
+                if let Some(f) = f {
+                    rep.violation(f.sig, f.detail, f.replay);
+                }
+            }
+            Err(e) => rep.machinery_failure(&format!("old-format case {:?}: {e}", l)),
+        }
+    }
+
     let sample_layout = vec![vec![0u8, 2], vec![1]];
     let sample_img = build_image(&sample_layout).ok();
     let samples = json!([
@@ -714,6 +792,8 @@ fn main() {
         "damage_bounds": if thorough { "1 file: 39 sequences; 2 files: 39^2; 3 files: 39^3 (sequences of 1..3 entries over 3 payload kinds)" } else { "1 file: 39 sequences of 1..3 entries; 2 files: 12^2 (sequences of 1..2 entries); 3 files: 3^3 (1 entry each); 3 payload kinds" },
         "distinct_outcome_classes": outcome_count,
         "outcomes_by_mutation_and_region": stats.table(),
+        "previous_format_cases": old_cases,
+        "previous_format_rule": "every image of the quick damage set with every non-empty subset of its files rewritten in on-disk format version 1 (entry checksum over the payload only), which the reader promises to keep reading: recover_all_entries and recover_entries_after(0) must return exactly what they return for the version-2 image",
         "truncation_cases": twork.len(),
         "truncation_layouts": tl.len(),
         "truncation_nontrivial": t_nontrivial,
